@@ -374,16 +374,24 @@ func init() {
 		g := cc.e.g()
 		bs := bytesSort(g)
 		declBE(g, bs)
-		ms, ok := cc.args[1].(*ssa.MakeSlice)
-		if !ok {
-			cc.e.r.errorf("outside subset: PutUint64 into a slice that is not a local make() in %s", cc.e.fn.Name())
+		okShape := false
+		switch ms := cc.args[1].(type) {
+		case *ssa.MakeSlice:
+			if n, ok := constInt(ms.Len); ok && n == 8 {
+				okShape = true
+			}
+		case *ssa.Slice:
+			if al, ok := ms.X.(*ssa.Alloc); ok && ms.Low == nil {
+				if at, ok := al.Type().(*types.Pointer).Elem().Underlying().(*types.Array); ok && at.Len() == 8 {
+					okShape = true
+				}
+			}
+		}
+		if !okShape {
+			cc.e.r.errorf("outside subset: PutUint64 into a slice that is not a local make([]byte, 8) in %s", cc.e.fn.Name())
 			return nil, false
 		}
-		if n, ok := constInt(ms.Len); !ok || n != 8 {
-			cc.e.r.errorf("outside subset: PutUint64 into a slice of length other than 8 in %s", cc.e.fn.Name())
-			return nil, false
-		}
-		cc.e.vals[ms] = cc.def("beenc", bs, fmt.Sprintf("(be64enc %s)", cc.arg(2)))
+		cc.e.vals[cc.args[1]] = cc.def("beenc", bs, fmt.Sprintf("(be64enc %s)", cc.arg(2)))
 		return nil, true
 	}
 }
@@ -468,15 +476,6 @@ func (v *Verifier) repoRule(fn *ssa.Function) (extRule, bool) {
 	name := fn.Name()
 	res := fn.Signature.Results()
 	if res.Len() != 1 || !isByteSlice(res.At(0).Type()) {
-		if name == "GetShardIDFromBytes" || name == "GetOrderIDFromBytes" {
-			return func(cc *callCtx) ([]string, bool) {
-				g := cc.e.g()
-				declBE(g, bytesSort(g))
-				r := cc.def("idfb", "Int", fmt.Sprintf("(be64dec %s)", cc.arg(0)))
-				cc.e.rangeAssume(r, types.Typ[types.Uint64])
-				return []string{r}, true
-			}, true
-		}
 		return nil, false
 	}
 	if name == "KeyPrefix" {
@@ -485,13 +484,6 @@ func (v *Verifier) repoRule(fn *ssa.Function) (extRule, bool) {
 			bs := bytesSort(g)
 			g.DeclFun("str2bytes", []string{"Str"}, bs)
 			return []string{fmt.Sprintf("(str2bytes %s)", cc.arg(0))}, true
-		}, true
-	}
-	if name == "GetShardIDBytes" || name == "GetOrderIDBytes" {
-		return func(cc *callCtx) ([]string, bool) {
-			g := cc.e.g()
-			declBE(g, bytesSort(g))
-			return []string{cc.def("idb", bytesSort(g), fmt.Sprintf("(be64enc %s)", cc.arg(0)))}, true
 		}, true
 	}
 	if strings.HasSuffix(name, "Key") && strings.HasSuffix(fn.Pkg.Pkg.Path(), "/types") {
